@@ -19,9 +19,9 @@ fn unique_texts(rng: &mut Rng, n: usize) -> Vec<Vec<u8>> {
     v
 }
 
-/// finding 10: a constant + - * chain that the compiler folds through f64
+/// regression for finding 10 (repaired): a constant + - * chain beyond the range in which f64 is exact
 fn fold_trigger(g: &mut Gen) -> E {
-    let big: [i64; 10] = [(1 << 53) + 1, (1 << 53) + 3, (1 << 54) + 2, i64::MAX, i64::MAX - 1, -i64::MAX, (1 << 62) + 1, 3037000500, (1 << 53) - 1, 6074001001];
+    let big: [i64; 10] = [(1 << 53) + 1, (1 << 53) + 3, (1 << 54) + 2, i64::MAX - 7, i64::MAX - 1, -i64::MAX + 9, (1 << 62) + 1, 3037000499, (1 << 53) - 1, 1518500249];
     for _ in 0..50 {
         let o = *g.rng.pick(&[Op::Add, Op::Sub, Op::Mul]);
         let a = *g.rng.pick(&big);
@@ -29,7 +29,7 @@ fn fold_trigger(g: &mut Gen) -> E {
         let mut e = E::Arith(o, bx(E::Int(a)), bx(E::Int(b)));
         if g.rng.chance(1, 3) { let o2 = *g.rng.pick(&[Op::Add, Op::Sub]); e = E::Arith(o2, bx(e), bx(E::Int(g.rng.range(1, 3)))); }
         let fl = fold_flags_of(&e, &vec![]);
-        if !fl.inexact || fl.out_of_range { continue; }
+        if !fl.beyond_f64 || fl.out_of_range { continue; }
         // the value exact 64-bit arithmetic gives
         fn exact(e: &E) -> i64 { match e { E::Int(z) => *z, E::Arith(o, a, b) => arith_i64(*o, exact(a), exact(b)).unwrap(), _ => unreachable!() } }
         let x = exact(&e);
@@ -172,12 +172,13 @@ fn corpus() -> Vec<Case> {
     let r = |ns, global, private, pats: Vec<&[u8]>, cond| RuleSpec { ns, global, private, pats: pats.into_iter().map(|p| p.to_vec()).collect(), cond };
     let undef = || E::Read(IntKind { bytes: 1, signed: false, be: false }, bx(E::Arith(Op::Add, bx(E::Filesize), bx(E::Int(5)))));
     vec![
-        // finding 10
+        // finding 10 (repaired by 8b83ae6a): regression cases
         mk(vec![r(0, false, false, vec![], E::Cmp(Cmp::Eq, bx(E::Arith(Op::Add, bx(E::Int(9007199254740993)), bx(E::Int(1)))), bx(E::Int(9007199254740994))))], b"abc", Stream::Fold),
-        mk(vec![r(0, false, false, vec![], E::Cmp(Cmp::Lt, bx(E::Arith(Op::Add, bx(E::Int(i64::MAX)), bx(E::Int(1)))), bx(E::Int(0))))], b"abc", Stream::Fold),
+        mk(vec![r(0, false, false, vec![], E::Cmp(Cmp::Eq, bx(E::Arith(Op::Mul, bx(E::Int(9007199254740993)), bx(E::Int(3)))), bx(E::Int(27021597764222979))))], b"abc", Stream::Fold),
+        mk(vec![r(0, false, false, vec![], E::Cmp(Cmp::Lt, bx(E::Arith(Op::Add, bx(E::Arith(Op::Sub, bx(E::Filesize), bx(E::Int(3)))), bx(E::Arith(Op::Add, bx(E::Int(i64::MAX - 1)), bx(E::Int(1)))))), bx(E::Int(0))))], b"abcd", Stream::Fold),
         // finding 11
         mk(vec![r(0, false, false, vec![b"abc", b"zzz"], E::Of(Q::Expr(bx(E::Int(0))), vec![0, 1], SetSyn::List(1), A::None))], b"abc", Stream::OfZero),
-        // undefined-flag aliasing: 65 declarations, v8 undefined, v64 defined
+        // undefined-flag aliasing (repaired by 93e33409): 65 declarations, v8 undefined, v64 defined
         mk(vec![r(0, false, false, vec![], E::With((0..65).map(|i| (i, if i == 8 { undef() } else { E::Arith(Op::Add, bx(E::Filesize), bx(E::Int(i as i64))) })).collect(), bx(E::Defined(bx(E::Var(8))))))], b"abc", Stream::Deep),
         // lazy pattern search skipped by an undefined value
         mk(vec![r(0, false, false, vec![b"BAaa"], E::Or(bx(E::Cmp(Cmp::Gt, bx(undef()), bx(E::Count(P::Id(0), None)))), bx(E::Pat(P::Id(0), A::None))))], b"xxBAaa", Stream::Lazy),
